@@ -86,6 +86,7 @@ WORKER = {"pool": None}
 
 
 def spy_runs(M, rec, rng, g, n_nets):
+    from vf import refmodel as R_
     from concurrent.futures import ThreadPoolExecutor
 
     if WORKER["pool"] is None:
@@ -187,6 +188,28 @@ def spy_runs(M, rec, rng, g, n_nets):
             need = {"var", "links"}
             if not need <= used:
                 rec.violation(f"{PROP}:step() without engine did not use the selected engine", {"desc": desc, "selected": sel, "spy_log": sorted(set(log))})
+            # every law the network's elements need is asked of the engine (a user engine may bring its own queue update,
+            # destination law, ...): the primitives that must have been called, from the description alone
+            ins_, outs_, org_, dst_ = R_.topology(desc)
+            must = {"links.get_flow", "links.step_density", "links.step_speed"}
+            must |= {"links.controlled_Veq" if l_.get("vsl") is not None else "links.Veq" for l_ in desc["links"]}
+            for o_ in desc["origins"]:
+                if o_["kind"] != "ideal" and not o_.get("user"):
+                    must |= {"origins.step_queue", {"main": "origins.get_mainstream_flow", "ramp": "origins.get_ramp_flow", "simple": "origins.get_simplifiedramp_flow"}[o_["kind"]]}
+            for d_ in desc["dests"]:
+                must.add("destinations.get_congested_downstream_density" if d_["kind"] == "cong" else "destinations.get_congestion_free_downstream_density")
+            for n_ in desc["nodes"]:
+                if len(ins_[n_]) >= 2 and outs_[n_]:
+                    must |= {"nodes.get_upstream_speed", "nodes.get_upstream_flow"}
+                if len(ins_[n_]) == 1 and len(outs_[n_]) >= 2:
+                    must.add("nodes.get_upstream_flow")
+                if ins_[n_] and len(outs_[n_]) >= 2:
+                    must.add("nodes.get_downstream_density")
+            rec.count("primitive_coverage_checks")
+            missing = sorted(must - set(log))
+            if missing and not any(o_.get("user") or o_.get("user_cap_flow") is not None for o_ in desc["origins"]) and not any(l_.get("user_cap") is not None for l_ in desc["links"]):
+                rec.violation(f"{PROP}:a law the network needs was not asked of the engine in use: {missing[0]} (an engine bringing its own would be by-passed)",
+                              {"desc": desc, "selected": sel, "never_called": missing})
             for eid, L in lay.items():
                 el = built.el(eid)
                 for name, n_ in L["states"]:
